@@ -358,7 +358,15 @@ fn long_run_item(i: u64, n: usize, acc: &mut Acc) {
         }
         for k in 0..n {
             let tr = (k as u8).wrapping_add(first_tr).wrapping_add(2);
-            let (bytes, want) = if k % 2 == 0 { (flat_pic(PicType::D, tr, Some(200)), 200u8) } else { (flat_pic(PicType::D, tr, None), 100u8) };
+            // mostly intra pictures whose value is never the reference's (so that a disposable picture
+            // that takes the reference's place shows in everything predicted afterwards); every
+            // fifth one (phase depending on the run) is a not-coded copy of the reference
+            let (bytes, want) = if (k + i as usize) % 5 != 4 {
+                let v = 150 + ((k * 7 + i as usize) % 90) as u8;
+                (flat_pic(PicType::D, tr, Some(v)), v)
+            } else {
+                (flat_pic(PicType::D, tr, None), 100u8)
+            };
             let o = decode_bytes(&mut st, &bytes);
             if !o.is_ok() {
                 return Err(format!("disposable picture #{} not decoded: {}", k + 1, o.short()));
